@@ -1,4 +1,5 @@
 SPECIFICATION Spec
+CONSTANT TlsExclusiveBug = FALSE
 CONSTANT IdleBypassBug = FALSE
 CONSTANT StatusRewrapBug = FALSE
 INVARIANT InvMechanismIsPolicy
